@@ -38,6 +38,7 @@ from mqt.yaqs.core.methods import decompositions as dec_mod  # noqa: E402
 from mqt.yaqs.core.methods import tdvp as tdvp_mod  # noqa: E402
 
 KEY_D16 = "C08:svd-centre-shift-floor2:max_bond_dim=1,min_bond_dim=1"
+KEY_D31 = "C08:zero-state-after-zero-weight-jump"
 SPEC = {"svd_calls": 0, "hyp_rank_fail": 0, "hyp_zero_state": 0, "detail": ""}
 
 
@@ -66,6 +67,7 @@ class Recorder:
         self.snaps = []        # bond vectors at sampling points
         self.unexplained = []
         self.last = None
+        self.seed = 0
         self.history = []
         self._s = []
 
@@ -181,6 +183,18 @@ def instrument(rec: Recorder):
 
     MPS.evaluate_observables = ev
     MPS.measure_shots = shots
+    # trajectories draw from an unseeded generator; seed it from the case so that a run is reproducible from VERIF_SEED
+    orig_rng = np.random.default_rng
+    counter = {"n": 0}
+
+    def seeded_rng(*a, **k):
+        if a or k:
+            return orig_rng(*a, **k)
+        counter["n"] += 1
+        return orig_rng([rec.seed, counter["n"]])
+
+    np.random.default_rng = seeded_rng
+    undo.append(lambda: setattr(np.random, "default_rng", orig_rng))
     undo.append(lambda: setattr(MPS, "evaluate_observables", orig_eval))
     undo.append(lambda: setattr(MPS, "measure_shots", orig_shots))
 
@@ -328,6 +342,8 @@ def run_sim(inp):
     noise = NoiseModel(make_noise(rng, L)) if noisy else None
     obs = [Observable(Z(), i) for i in range(L)] + [Observable(X(), 0)]
     rec = Recorder()
+    rec.seed = int(inp["sub"]) % (2**31)
+    zero0 = SPEC["hyp_zero_state"]
     restore = instrument(rec)
     err = None
     try:
@@ -384,8 +400,17 @@ def run_sim(inp):
                             "sig": f"inv:{mx}:{mn}:{init}:{vec}", "nontrivial": max(vec) >= min(mx, 2)})
     if rec.unexplained:
         probs.append(f"bond changed without a recorded primitive: {rec.unexplained[:3]} — the model's op set does not cover the code")
-    out.append({"req": None, "impl": None, "oracle": {"ok": not probs, "detail": "; ".join(probs) or f"{meta}: {len(rec.snaps)} sampling points, max bond {max((max(b) for _, b in rec.snaps if b), default=0)}"},
-                "kind": "sim", "sig": f"sim:{flavour}:{L}:{mx}:{mn}:{mode}:{noisy}:{state_kind}", "meta": meta})
+    key = None
+    if worst and not err and not rec.unexplained and SPEC["hyp_zero_state"] > zero0:
+        # known finding D31: the bond excess follows an SVD normalisation of a numerically zero state (a jump was drawn although
+        # every process has zero weight, because norm lost to truncation is read as jump probability)
+        key = KEY_D31
+        probs.append(f"{SPEC['hyp_zero_state'] - zero0} SVD shifts of this run saw a state of squared norm below their threshold")
+    case = {"req": None, "impl": None, "oracle": {"ok": not probs, "detail": "; ".join(probs) or f"{meta}: {len(rec.snaps)} sampling points, max bond {max((max(b) for _, b in rec.snaps if b), default=0)}"},
+            "kind": "sim", "sig": f"sim:{flavour}:{L}:{mx}:{mn}:{mode}:{noisy}:{state_kind}", "meta": meta}
+    if key:
+        case["key"] = key
+    out.append(case)
     return out
 
 
@@ -434,12 +459,704 @@ def spec():
              "zero_state_cases": SPEC["hyp_zero_state"], "detail": SPEC["detail"]}]
 
 
+# =====================================================================================================================
+# extension (Model.SweepBonds): the ACTUAL operation sequences of the code, with the bond every primitive acts on
+#
+# trace tie : the real `local_dynamic_tdvp` / `two_site_tdvp` / `single_site_tdvp` / `bug` / `analog_tjm.step_through`
+#             (several steps in a row) / `digital_tjm` (one case per two-qubit gate step) run with every bond-changing
+#             primitive recorded (split_mps_tensor, two_site_svd, right_qr, np.linalg.qr, bug.find_new_q) AND the bond
+#             it acts on.  The bond is recovered from where the primitive's output tensor is stored: `state.tensors`
+#             is replaced by a list subclass that logs every `__setitem__` (index, flipped flag of the owner, value);
+#             the first store of the output object (or of a view of it) after the call gives the site, the flipped
+#             flag / the neighbour stored next gives the direction of a QR shift.  Primitives whose output never
+#             reaches `state.tensors` (deep copies in create_probability_distribution, QRs of
+#             prepare_canonical_site_tensors) are not ops on the state.
+#             request  `sweepbonds <fn> … | L mode thr min max | phys | init bonds | n2 | e0 | e1 | …` : the structure
+#             parameters are inputs (noise model handed to apply_dissipation, process drawn by the lottery, gate sites
+#             returned by apply_two_qubit_gate, centre returned by check_canonical_form), `e_k` the numbers the k-th op
+#             saw.  The model computes the op list itself (decisions of local_dynamic_tdvp from the bond vector) and
+#             must reproduce kind, bond, physical dimension and resulting bond dimension of every op and the bond
+#             vector after the call.
+# oracle    : after every call / step every bond <= max(max_bond_dim, min_bond_dim, initial bond).
+# =====================================================================================================================
+import copy as _copy  # noqa: E402
+
+from mqt.yaqs.analog import analog_tjm as atjm_mod  # noqa: E402
+from mqt.yaqs.core.methods import bug as bug_mod  # noqa: E402
+from mqt.yaqs.core.methods import dissipation as diss_mod  # noqa: E402
+from mqt.yaqs.core.methods import stochastic_process as sp_mod  # noqa: E402
+from mqt.yaqs.digital import digital_tjm as dtjm_mod  # noqa: E402
+
+SEQ = {"ops": 0, "off_state": 0, "dummy_qr": 0, "svd_thr_other": 0, "grow_formula_fail": 0, "detail": ""}
+
+
+class TList(list):
+    """`state.tensors` with every item store logged; copies are plain lists (copies of a state are not the state)"""
+
+    def __init__(self, it, trace, owner, offset):
+        super().__init__(it)
+        self._trace, self._owner, self._offset = trace, owner, offset
+
+    def __setitem__(self, idx, val):
+        if isinstance(idx, int):
+            o = self._owner
+            n = len(self)
+            j = idx if idx >= 0 else n + idx
+            site = (n - 1 - j if o.flipped else j) + self._offset
+            self._trace.log.append(("set", id(self), site, bool(o.flipped), val))
+        super().__setitem__(idx, val)
+
+    def __copy__(self):
+        return list(self)
+
+    def __deepcopy__(self, memo):
+        return [_copy.deepcopy(t, memo) for t in self]
+
+    def __reduce_ex__(self, protocol):
+        return (list, (list(self),))
+
+
+class OpTrace:
+    def __init__(self):
+        self.log = []
+        self.tracked = {}   # id(state) -> (state, offset)
+        self.depth = 0      # > 0 inside a wrapped primitive that itself calls np.linalg.qr
+        self._s = []
+        self.undo = []
+        self.centres = []
+
+    # ---- tracking of states
+    def track(self, state, offset=0):
+        if id(state) in self.tracked and isinstance(state.tensors, TList):
+            return
+        self.tracked[id(state)] = (state, offset)
+        state.tensors = TList(state.tensors, self, state, offset)
+
+    def untrack_all(self):
+        for st, _ in self.tracked.values():
+            if isinstance(st.tensors, TList):
+                st.tensors = list(st.tensors)
+        self.tracked = {}
+
+    # ---- instrumentation
+    def install(self):
+        t = self
+        orig_rsvd_t, orig_rsvd_d = tdvp_mod.robust_svd, dec_mod.robust_svd
+        orig_split, orig_two, orig_rqr = tdvp_mod.split_mps_tensor, dec_mod.two_site_svd, dec_mod.right_qr
+        orig_npqr = np.linalg.qr
+        orig_flip = MPS.flip_network
+        orig_newq = bug_mod.find_new_q
+        orig_ccf = MPS.check_canonical_form
+        orig_trunc = MPS.truncate
+
+        def rsvd(orig):
+            def f(a, *args, **kw):
+                u, s, v = orig(a, *args, **kw)
+                t._s.append(np.array(s))
+                return u, s, v
+            return f
+
+        def split(tensor, dist, sim_params, dims, *, dynamic):
+            t._s = []
+            a0, a1 = orig_split(tensor, dist, sim_params, dims, dynamic=dynamic)
+            s = t._s[-1] if t._s else np.array([])
+            thr = float(sim_params.threshold)
+            if sim_params.trunc_mode == "discarded_weight":
+                edge = c09.margin_edge(s, thr)
+            else:
+                edge = bool(len(s)) and float(s[0]) > 0 and any(
+                    abs(float(v) / float(s[0]) - thr) <= 1e-9 * max(thr, 1e-300) for v in s)
+            t.log.append(("prim", "split", {"s": s, "keep": int(a0.shape[2]), "edge": bool(edge), "dynamic": dynamic}, a0))
+            return a0, a1
+
+        def two(a, b, threshold, max_bond_dim=None):
+            t._s = []
+            an, bn = orig_two(a, b, threshold, max_bond_dim)
+            s = t._s[-1] if t._s else np.array([])
+            chi = int(a.shape[2])
+            SPEC["svd_calls"] += 1
+            tail = float(np.sum(np.asarray(s[chi:], dtype=float) ** 2))
+            tot = float(np.sum(np.asarray(s, dtype=float) ** 2))
+            if max_bond_dim is None:
+                if not tail < threshold:
+                    SPEC["hyp_rank_fail"] += 1
+                    SPEC["detail"] = f"tailWeight beyond old bond {chi} is {tail:.3e} >= thr {threshold}"
+                if not tot >= threshold:
+                    SPEC["hyp_zero_state"] += 1
+            t.log.append(("prim", "svd" if max_bond_dim is None else "trunc",
+                          {"s": s, "thr": float(threshold), "cap": max_bond_dim, "keep": int(an.shape[2]), "chi": chi,
+                           "edge": bool(c09.margin_edge(s, threshold)), "zero": not tot >= threshold}, an))
+            return an, bn
+
+        def rqr(tensor):
+            t.depth += 1
+            try:
+                q, r = orig_rqr(tensor)
+            finally:
+                t.depth -= 1
+            t.log.append(("prim", "qr", {"d": int(tensor.shape[0]), "k": int(q.shape[2]), "r": int(tensor.shape[2])}, q))
+            return q, r
+
+        def npqr(m, *args, **kw):
+            res = orig_npqr(m, *args, **kw)
+            if t.depth == 0 and t.tracked:
+                try:
+                    t.log.append(("prim", "npqr", {"k": int(res[0].shape[1])}, res[0]))
+                except Exception:  # noqa: BLE001
+                    pass
+            return res
+
+        def newq(old_stack_tensor, updated_tensor):
+            t.depth += 1
+            try:
+                q = orig_newq(old_stack_tensor, updated_tensor)
+            finally:
+                t.depth -= 1
+            d, l2, r = int(old_stack_tensor.shape[0]), int(old_stack_tensor.shape[1] + updated_tensor.shape[1]), int(old_stack_tensor.shape[2])
+            if int(q.shape[1]) != min(l2, d * r):
+                SEQ["grow_formula_fail"] += 1
+            t.log.append(("prim", "grow", {"v": int(q.shape[1])}, q))
+            return q
+
+        def flip(self_mps):
+            orig_flip(self_mps)
+            if id(self_mps) in t.tracked:
+                self_mps.tensors = TList(self_mps.tensors, t, self_mps, t.tracked[id(self_mps)][1])
+
+        def ccf(self_mps):
+            res = orig_ccf(self_mps)
+            if id(self_mps) in t.tracked:
+                t.centres.append(list(res))
+            return res
+
+        tdvp_mod.robust_svd, dec_mod.robust_svd = rsvd(orig_rsvd_t), rsvd(orig_rsvd_d)
+        self.undo.append(lambda: (setattr(tdvp_mod, "robust_svd", orig_rsvd_t), setattr(dec_mod, "robust_svd", orig_rsvd_d)))
+        self.undo.append(patch_everywhere(orig_split, split))
+        self.undo.append(patch_everywhere(orig_two, two))
+        self.undo.append(patch_everywhere(orig_rqr, rqr))
+        self.undo.append(patch_everywhere(orig_newq, newq))
+        np.linalg.qr = npqr
+        self.undo.append(lambda: setattr(np.linalg, "qr", orig_npqr))
+        MPS.flip_network = flip
+        MPS.check_canonical_form = ccf
+        self.undo.append(lambda: (setattr(MPS, "flip_network", orig_flip), setattr(MPS, "check_canonical_form", orig_ccf)))
+        _ = orig_trunc
+
+    def restore(self):
+        for u in reversed(self.undo):
+            u()
+        self.undo = []
+        self.untrack_all()
+
+    # ---- resolution of the log into ops with bonds
+    def resolve(self, lo, hi, nbonds):
+        """ops of log[lo:hi]: list of dicts {tok, ext, edge}; tok without the '=value' part"""
+        log = self.log
+        out = []
+        for n in range(lo, hi):
+            ev = log[n]
+            if ev[0] != "prim":
+                continue
+            _, kind, dat, obj = ev
+            land = None
+            m = n + 1
+            while m < len(log) and log[m][0] != "prim":
+                v = log[m][4]
+                if v is obj or (isinstance(v, np.ndarray) and np.shares_memory(v, obj)):
+                    land = m
+                    break
+                m += 1
+            if land is None:
+                SEQ["off_state"] += 1
+                continue
+            _, lid, site, flipped, val = log[land]
+            if kind == "split":
+                out.append({"tok": f"split:{site}", "val": dat["keep"], "ext": "s " + ib.fracs(dat["s"]), "edge": dat["edge"]})
+            elif kind in ("svd", "trunc"):
+                bond = site - 1 if flipped else site
+                if kind == "svd":
+                    if dat["thr"] != 1e-12:
+                        SEQ["svd_thr_other"] += 1
+                    out.append({"tok": f"svd:{bond}", "val": dat["keep"], "ext": f"v {ib.frac(dat['thr'])} " + ib.fracs(dat["s"]), "edge": dat["edge"],
+                                "zero": dat["zero"]})
+                else:
+                    out.append({"tok": f"trunc:{bond}:{int(dat['cap'])}", "val": dat["keep"], "ext": "t " + ib.fracs(dat["s"]), "edge": dat["edge"],
+                                "thr": dat["thr"]})
+            elif kind == "qr":
+                bond = site - 1 if flipped else site
+                if bond < 0 or bond >= nbonds:
+                    SEQ["dummy_qr"] += 1
+                    if dat["k"] != 1:
+                        out.append({"tok": f"dummy-qr-not-1:{bond}", "val": dat["k"], "ext": "x", "edge": False})
+                    continue
+                out.append({"tok": f"{'qrl' if flipped else 'qr'}:{bond}:{dat['d']}", "val": dat["k"], "ext": "x", "edge": False})
+            elif kind == "npqr":
+                # direction: the neighbour that receives the R factor is stored next (same list)
+                nxt = None
+                for mm in range(land + 1, len(log)):
+                    if log[mm][0] == "prim":
+                        break
+                    if log[mm][1] == lid and log[mm][2] != site:
+                        nxt = log[mm][2]
+                        break
+                d = int(val.shape[0])
+                if nxt == site + 1:
+                    out.append({"tok": f"qr:{site}:{d}", "val": dat["k"], "ext": "x", "edge": False})
+                elif nxt == site - 1:
+                    out.append({"tok": f"qrl:{site - 1}:{d}", "val": dat["k"], "ext": "x", "edge": False})
+                else:
+                    out.append({"tok": f"qr?:{site}:{d}", "val": dat["k"], "ext": "x", "edge": False})
+            elif kind == "grow":
+                out.append({"tok": f"grow:{site - 1}", "val": dat["v"], "ext": f"g {dat['v']}", "edge": False})
+        SEQ["ops"] += len(out)
+        return out
+
+
+class RecRng:
+    """the rng handed to stochastic_process: real draws (optionally capped at 1e-3 for the jump test, so that a jump occurs
+    whenever its total probability exceeds 1e-3), choices recorded"""
+
+    def __init__(self, gen, force_jump=False):
+        self.g, self.force, self.choice_idx, self.n_random = gen, force_jump, None, 0
+
+    def random(self):
+        self.n_random += 1
+        r = self.g.random()
+        return min(r, 1e-3) if self.force else r
+
+    def choice(self, n, p=None):
+        self.choice_idx = int(self.g.choice(n, p=p))
+        return self.choice_idx
+
+
+def bonds_of(state):
+    return [int(t.shape[2]) for t in list(state.tensors)[:-1]]
+
+
+def n2_of(noise, L):
+    """number of non-Pauli adjacent two-site processes whose right site is i (what apply_dissipation splits)"""
+    n2 = [0] * L
+    if noise is not None:
+        for p in noise.processes:
+            if len(p["sites"]) == 2 and not diss_mod.is_pauli(p) and abs(p["sites"][1] - p["sites"][0]) == 1:
+                n2[p["sites"][1]] += 1
+    return n2
+
+
+def noisy_of(noise):
+    return not (noise is None or all(p["strength"] == 0 for p in noise.processes))
+
+
+def jump_of(noise, rr):
+    if rr is None or rr.choice_idx is None:
+        return "none"
+    sites = noise.processes[rr.choice_idx]["sites"]
+    if len(sites) == 2 and abs(sites[1] - sites[0]) == 1:
+        return f"stoch {min(sites)}"
+    return "stoch -"
+
+
+def seq_case(fn_head, L, sp, init, n2, ops, final, err, allowed, meta, sigx, model_err=False):
+    """one tied case + its oracle from a resolved op list"""
+    mode = "dw" if sp.trunc_mode == "discarded_weight" else "rel"
+    head = f"sweepbonds {fn_head} | {L} {mode} {ib.frac(float(sp.threshold))} {int(sp.min_bond_dim)} {int(sp.max_bond_dim)}"
+    req = " | ".join([head, " ".join(["2"] * L), " ".join(map(str, init)), " ".join(map(str, n2))] + [o["ext"] for o in ops])
+    if err is not None:
+        impl = "err" if model_err else f"raised {err}"
+    else:
+        impl = " ".join([f"{o['tok']}={o['val']}" for o in ops] + ["->"] + [str(b) for b in final])
+    probs = []
+    if err is None:
+        over = [(i, b, a) for i, (b, a) in enumerate(zip(final, allowed)) if b > a]
+        if over:
+            probs.append(f"after {fn_head}: bond {over[0][0]} = {over[0][1]} > max(max_bond_dim, min_bond_dim, initial) = {over[0][2]} (bonds {final}, allowed {allowed})")
+    elif not model_err:
+        probs.append(f"{fn_head} raised {err}")
+    kinds = sorted({o["tok"].split(":")[0] for o in ops})
+    zero = any(o.get("zero") for o in ops)
+    if zero:
+        # an SVD centre shift on a numerically zero state (total weight < 1e-12, e.g. after a jump through a channel
+        # of zero amplitude): outside the hypotheses of the invariant (OpOk: thr <= sqsum s) — counted, not judged
+        SEQ["zero_state_steps"] = SEQ.get("zero_state_steps", 0) + 1
+        if probs:
+            SEQ["zero_state_over_cap"] = SEQ.get("zero_state_over_cap", 0) + 1
+            SEQ["detail"] = probs[0] + " | " + meta
+    return {"req": req, "impl": impl, "edge": any(o["edge"] for o in ops) or zero,
+            "oracle": None if zero else {"ok": not probs, "detail": "; ".join(probs) or f"{meta}: bonds {init} -> {final} within {allowed}"},
+            "kind": "seq-" + fn_head.split()[0], "sig": f"seq:{fn_head}:{L}:{int(sp.max_bond_dim)}:{int(sp.min_bond_dim)}:{mode}:{init}:{sigx}",
+            "nontrivial": len(kinds) >= 1 and len(ops) >= 1, "meta": meta}
+
+
+def seq_state(rng, L, mx):
+    kind = rng.choice(["random", "random", "random", "x+", "Neel", "zeros"])
+    if kind != "random" or L == 1:
+        return kind, MPS(L, state=kind if kind != "random" else "x+")
+    nprng = np.random.default_rng(rng.randrange(1 << 30))
+    dmax = rng.choice([2, 3, 4, 5, 6, max(2, mx), max(2, mx + 1)])
+    b = [1] * (L + 1)
+    for i in range(1, L):
+        b[i] = rng.randint(1, min(dmax, 2 * b[i - 1], 2 ** min(i, L - i)))
+    for i in range(L - 1, 0, -1):
+        b[i] = min(b[i], 2 * b[i + 1])
+    ts = [nprng.normal(size=(2, b[i], b[i + 1])) + 1j * nprng.normal(size=(2, b[i], b[i + 1])) for i in range(L)]
+    s = MPS(L, tensors=ts, physical_dimensions=[2] * L)
+    s.normalize("B")
+    return kind, s
+
+
+def seq_params(rng, analog=True, bugmode=False, dt=0.1):
+    mx = rng.choice([1, 2, 2, 3, 3, 4, 4, 5, 6, 7])
+    mn = rng.choice([1, 2, 2, 3])
+    mode = rng.choice(["discarded_weight", "discarded_weight", "relative"])
+    thr = rng.choice([1e-12, 1e-9, 1e-6, 1e-3]) if mode == "discarded_weight" else rng.choice([1e-6, 1e-2])
+    obs = [Observable(Z(), 0)]
+    if analog:
+        sp = AnalogSimParams(obs, elapsed_time=dt, dt=dt, num_traj=1, max_bond_dim=mx, min_bond_dim=mn, trunc_mode=mode,
+                             threshold=thr, order=1, sample_timesteps=False, show_progress=False,
+                             evolution_mode=EvolutionMode.BUG if bugmode else EvolutionMode.TDVP)
+    else:
+        sp = StrongSimParams(obs, num_traj=1, max_bond_dim=mx, min_bond_dim=mn, trunc_mode=mode, threshold=thr,
+                             sample_layers=False, show_progress=False)
+    return sp, mx, mn
+
+
+def seq_ham(rng, L):
+    return MPO.ising(L, 1.0, 0.8) if rng.random() < 0.5 else MPO.heisenberg(L, 1.0, 0.7, 0.4, 0.3)
+
+
+def run_seq_fn(inp):
+    """one call of an integrator function on a state with random bonds"""
+    rng = random.Random(inp["sub"])
+    fn = inp["fn"]
+    digital = rng.random() < 0.3 and fn != "bug"
+    L = rng.choice([1, 2, 2, 3, 3, 4, 4, 5, 5, 6]) if fn != "bug" else rng.choice([2, 3, 4, 5])
+    sp, mx, mn = seq_params(rng, analog=not digital, bugmode=(fn == "bug"), dt=rng.choice([0.05, 0.1, 0.3]))
+    skind, state = seq_state(rng, L, mx)
+    ham = seq_ham(rng, L)
+    init = bonds_of(state)
+    if init and rng.random() < 0.6:
+        # a cap that bites at some bonds and not at others: one of the bond dimensions present (or one more)
+        mx = max(1, rng.choice(init) + rng.choice([0, 0, 1]))
+        sp.max_bond_dim = mx
+    tr = OpTrace()
+    tr.install()
+    err = None
+    try:
+        tr.track(state)
+        f = {"ldtdvp": tdvp_mod.local_dynamic_tdvp, "twosite": tdvp_mod.two_site_tdvp,
+             "singlesite": tdvp_mod.single_site_tdvp, "bug": bug_mod.bug}[fn]
+        try:
+            f(state, ham, sp)
+        except Exception as e:  # noqa: BLE001
+            err = f"{type(e).__name__}"
+        final = bonds_of(state)
+        ops = tr.resolve(0, len(tr.log), L - 1)
+    finally:
+        tr.restore()
+    if fn == "bug":
+        c0 = tr.centres[-1][0] if tr.centres and tr.centres[-1] else 0
+        head = f"bug {c0}"
+    else:
+        head = f"{fn} {1 if digital else 0}"
+    allowed = [max(mx, mn, b) for b in init]
+    meta = f"{fn} L={L} digital={digital} max={mx} min={mn} {sp.trunc_mode} thr={sp.threshold} state={skind}"
+    model_err = fn == "twosite" and L < 2 and err == "ValueError"
+    return seq_case(head, L, sp, init, [], ops, final, err, allowed, meta, f"{digital}:{[o['tok'] for o in ops]}", model_err)
+
+
+def run_seq_analog(inp):
+    """several real `step_through` calls in a row; one case per step"""
+    rng = random.Random(inp["sub"])
+    L = rng.choice([2, 3, 3, 4, 4, 5])
+    bugmode = rng.random() < 0.3
+    dt = rng.choice([0.1, 0.3, 0.5])
+    sp, mx, mn = seq_params(rng, analog=True, bugmode=bugmode, dt=dt)
+    noisy = rng.random() < 0.75
+    if mx == 1 and mn == 1:
+        noisy = False  # D16 point, probed by its own case
+    skind, state = seq_state(rng, L, mx)
+    ham = seq_ham(rng, L)
+    procs = make_noise(rng, L) if noisy else None
+    sched = None
+    if noisy and rng.random() < 0.25:
+        i = rng.randrange(L - 1)
+        sched = [{"time": dt * rng.choice([1, 2]), "sites": rng.choice([[i], [i, i + 1]]), "name": "x"}]
+        if len(sched[0]["sites"]) == 2:
+            sched[0]["name"] = "lowering_two"
+    noise = NoiseModel(procs, scheduled_jumps=sched) if noisy else None
+    run_init = bonds_of(state)
+    allowed = [max(mx, mn, b) for b in run_init]
+    out = []
+    tr = OpTrace()
+    tr.install()
+    orig_sp = atjm_mod.stochastic_process
+    orig_sj = atjm_mod.apply_scheduled_jumps
+    cur = {"rr": None, "sched": None}
+
+    def sproc(st, nm, dt_, sim_params, rng=None):
+        cur["rr"] = RecRng(rng, force_jump=cur["force"])
+        return orig_sp(st, nm, dt_, sim_params, rng=cur["rr"])
+
+    def sjump(st, nm, time, sim_params):
+        pairs = []
+        for j in nm.scheduled_jumps:
+            if np.isclose(j["time"], time, rtol=0.0, atol=sim_params.dt * 1e-3) and len(j["sites"]) == 2:
+                pairs.append(min(j["sites"]))
+        cur["sched"] = pairs
+        return orig_sj(st, nm, time, sim_params)
+
+    atjm_mod.stochastic_process = sproc
+    atjm_mod.apply_scheduled_jumps = sjump
+    try:
+        tr.track(state)
+        g = np.random.default_rng(rng.randrange(1 << 30))
+        for step in range(rng.choice([1, 2, 3])):
+            cur.update(rr=None, sched=None, force=noisy and rng.random() < 0.5)
+            init = bonds_of(state)
+            lo = len(tr.log)
+            nc = len(tr.centres)
+            err = None
+            try:
+                state = atjm_mod.step_through(state, ham, noise, sp, dt * (step + 1), rng=g)
+            except Exception as e:  # noqa: BLE001
+                err = f"{type(e).__name__}"
+            final = bonds_of(state)
+            ops = tr.resolve(lo, len(tr.log), L - 1)
+            if cur["sched"] is not None:
+                jump = "sched " + " ".join(map(str, cur["sched"])) if cur["sched"] else "sched"
+            else:
+                jump = jump_of(noise, cur["rr"])
+            if bugmode:
+                c0 = tr.centres[nc][0] if len(tr.centres) > nc and tr.centres[nc] else 0
+                evo = f"bug:{c0}"
+            else:
+                evo = "auto"
+            head = f"analog {evo} {1 if noisy_of(noise) else 0} {jump}"
+            meta = f"step_through #{step} L={L} {evo} max={mx} min={mn} {sp.trunc_mode} thr={sp.threshold} noise={procs} sched={sched} jump={jump} state={skind}"
+            out.append(seq_case(head, L, sp, init, n2_of(noise, L), ops, final, err, allowed, meta,
+                                f"{[o['tok'] for o in ops]}"))
+            if err is not None:
+                break
+    finally:
+        atjm_mod.stochastic_process = orig_sp
+        atjm_mod.apply_scheduled_jumps = orig_sj
+        tr.restore()
+    return out
+
+
+def seq_circuit(rng, L, depth):
+    from qiskit import QuantumCircuit
+
+    qc = QuantumCircuit(L)
+    for _ in range(depth):
+        for q in range(L):
+            g = rng.choice(["h", "rx", "rz", "x", "none"])
+            if g == "h":
+                qc.h(q)
+            elif g == "rx":
+                qc.rx(rng.uniform(0, 3), q)
+            elif g == "rz":
+                qc.rz(rng.uniform(0, 3), q)
+            elif g == "x":
+                qc.x(q)
+        if L >= 3 and rng.random() < 0.25:
+            q = rng.randrange(L - 2)
+            (qc.rzz if rng.random() < 0.5 else qc.rxx)(rng.uniform(0, 2), q, q + 2)
+        start = rng.choice([0, 1])
+        for q in range(start, L - 1, 2):
+            g = rng.choice(["cx", "cz", "rzz", "rxx", "cp", "cxr"])
+            if g == "cx":
+                qc.cx(q, q + 1)
+            elif g == "cxr":
+                qc.cx(q + 1, q)
+            elif g == "cz":
+                qc.cz(q, q + 1)
+            elif g == "rzz":
+                qc.rzz(rng.uniform(0, 2), q, q + 1)
+            elif g == "rxx":
+                qc.rxx(rng.uniform(0, 2), q, q + 1)
+            else:
+                qc.cp(rng.uniform(0, 2), q, q + 1)
+    return qc
+
+
+def run_seq_gate(inp):
+    """the real `digital_tjm` on a random circuit; one case per two-qubit gate step (gate + noise block)"""
+    rng = random.Random(inp["sub"])
+    L = rng.choice([2, 3, 4, 4, 5, 5, 6])
+    sp, mx, mn = seq_params(rng, analog=False)
+    noisy = rng.random() < 0.6
+    if mx == 1 and mn == 1:
+        noisy = False
+    skind, state0 = seq_state(rng, L, mx)
+    noise = NoiseModel(make_noise(rng, L)) if noisy else None
+    qc = seq_circuit(rng, L, rng.choice([1, 2, 3]))
+    out = []
+    tr = OpTrace()
+    tr.install()
+    names = ["apply_two_qubit_gate", "apply_single_qubit_gate", "apply_dissipation", "stochastic_process", "two_site_tdvp"]
+    orig = {n: getattr(dtjm_mod, n) for n in names}
+    orig_eval, orig_shots = MPS.evaluate_observables, MPS.measure_shots
+    cur = {"open": None, "state": None, "run_init": None}
+
+    def close():
+        c = cur["open"]
+        if c is None:
+            return
+        cur["open"] = None
+        st = cur["state"]
+        final = bonds_of(st)
+        ops = tr.resolve(c["lo"], len(tr.log), L - 1)
+        if c["noise"] is None:
+            head = f"gate {c['first']} {c['last']} nonoise"
+            n2 = []
+        else:
+            head = f"gate {c['first']} {c['last']} noise {1 if noisy_of(c['noise']) else 0} {jump_of(c['noise'], c['rr'])}"
+            n2 = n2_of(c["noise"], L)
+        allowed = [max(mx, mn, b) for b in cur["run_init"]]
+        meta = f"digital gate step ({c['first']},{c['last']}) L={L} max={mx} min={mn} {sp.trunc_mode} thr={sp.threshold} local noise={None if c['noise'] is None else [(p['name'], p['sites']) for p in c['noise'].processes]} state={skind}"
+        out.append(seq_case(head, L, sp, c["init"], n2, ops, final, c.get("err"), allowed, meta, f"{[o['tok'] for o in ops]}"))
+
+    def a2q(st, node, sim_params):
+        close()
+        tr.track(st)
+        cur["state"] = st
+        if cur["run_init"] is None:
+            cur["run_init"] = bonds_of(st)
+        c = {"lo": len(tr.log), "init": bonds_of(st), "noise": None, "rr": None, "first": "?", "last": "?"}
+        cur["open"] = c
+        c["first"], c["last"] = orig["apply_two_qubit_gate"](st, node, sim_params)
+        return c["first"], c["last"]
+
+    def a1q(st, node):
+        close()
+        return orig["apply_single_qubit_gate"](st, node)
+
+    def adiss(st, nm, dt, sim_params):
+        if cur["open"] is not None:
+            cur["open"]["noise"] = nm
+        return orig["apply_dissipation"](st, nm, dt=dt, sim_params=sim_params)
+
+    def sproc(st, nm, dt, sim_params, rng=None):
+        # the generator is an input of stochastic_process: a seeded one keeps the run reproducible
+        r2 = random.Random(len(tr.log) + inp["sub"])
+        rr = RecRng(np.random.default_rng(r2.randrange(1 << 30)), force_jump=r2.random() < 0.4)
+        if cur["open"] is not None:
+            cur["open"]["rr"] = rr
+        return orig["stochastic_process"](st, nm, dt=dt, sim_params=sim_params, rng=rr)
+
+    def tstdvp(short_state, short_mpo, sim_params, **kw):
+        st = cur["state"]
+        off = None
+        for i, t_ in enumerate(list(st.tensors)):
+            if t_ is short_state.tensors[0]:
+                off = i
+                break
+        if off is not None:
+            tr.track(short_state, offset=off)
+        return orig["two_site_tdvp"](short_state, short_mpo, sim_params, **kw)
+
+    def ev(self, *a, **k):
+        close()
+        return orig_eval(self, *a, **k)
+
+    def shots(self, *a, **k):
+        close()
+        return orig_shots(self, *a, **k)
+
+    for n, f in zip(names, [a2q, a1q, adiss, sproc, tstdvp]):
+        setattr(dtjm_mod, n, f)
+    MPS.evaluate_observables, MPS.measure_shots = ev, shots
+    err = None
+    try:
+        try:
+            dtjm_mod.digital_tjm((0, state0, noise, sp, qc))
+        except Exception as e:  # noqa: BLE001
+            err = f"{type(e).__name__}"
+            if cur["open"] is not None:
+                cur["open"]["err"] = err
+            close()
+    finally:
+        for n in names:
+            setattr(dtjm_mod, n, orig[n])
+        MPS.evaluate_observables, MPS.measure_shots = orig_eval, orig_shots
+        tr.restore()
+    if err is not None and not out:
+        out.append({"req": None, "impl": None, "kind": "seq-gate", "sig": f"seq-gate-err:{err}",
+                    "oracle": {"ok": False, "detail": f"digital_tjm raised {err} (L={L} max={mx} min={mn})"}})
+    return out
+
+
+_gen_base, _run_base, _spec_base = gen, run, spec
+
+
+def gen(rng, tier):  # noqa: F811
+    """the original stream, then (from an independent derived generator, so the original cases keep their sub-seeds)
+    the op-sequence cases, interleaved so that a budget cut keeps every kind"""
+    rng2 = random.Random(f"x08:{tier}:{hash(rng.getstate()[1][:8])}")
+    nseq = {"quick": 36, "thorough": 900, "search": 60}.get(tier, 8)
+    base = list(_gen_base(rng, tier))
+    extra = []
+    for _ in range(nseq):
+        for fn in ("ldtdvp", "ldtdvp", "twosite", "singlesite", "bug"):
+            extra.append({"kind": "seq-fn", "fn": fn, "sub": rng2.randrange(1 << 30)})
+        extra.append({"kind": "seq-analog", "sub": rng2.randrange(1 << 30)})
+        extra.append({"kind": "seq-analog", "sub": rng2.randrange(1 << 30)})
+        extra.append({"kind": "seq-gate", "sub": rng2.randrange(1 << 30)})
+    # interleave: one extra input after every second original one
+    it = iter(extra)
+    for n, b in enumerate(base):
+        yield b
+        if n % 2 == 1:
+            e = next(it, None)
+            if e is not None:
+                yield e
+    yield from it
+
+
+def run(inp):  # noqa: F811
+    k = inp["kind"]
+    if k == "seq-fn":
+        return run_seq_fn(inp)
+    if k == "seq-analog":
+        return run_seq_analog(inp)
+    if k == "seq-gate":
+        return run_seq_gate(inp)
+    if k == "d16":
+        # the original case lets an exception of the real code escape (harness error, no verdict); report it instead,
+        # under its own key so that the known finding D16 does not absorb it
+        try:
+            return _run_base(inp)
+        except Exception as e:  # noqa: BLE001
+            return {"req": None, "impl": None, "kind": "d16-raised", "sig": "d16-raised",
+                    "oracle": {"ok": False, "detail": f"apply_dissipation with max_bond_dim=min_bond_dim=1 on the x+ chain raised {type(e).__name__}: {e}"}}
+    return _run_base(inp)
+
+
+def spec():  # noqa: F811
+    return _spec_base() + [
+        {"name": "op-sequence tie: SVD centre shifts use threshold 1e-12; QRs on the dummy legs leave them at 1; "
+                 "bug.find_new_q enlarges the left leg to min(2*left, d*right)",
+         "ok": SEQ["svd_thr_other"] == 0 and SEQ["grow_formula_fail"] == 0, "n": SEQ["ops"],
+         "primitives_on_copies": SEQ["off_state"], "dummy_leg_qrs": SEQ["dummy_qr"],
+         "svd_threshold_not_1e-12": SEQ["svd_thr_other"], "grow_formula_failures": SEQ["grow_formula_fail"],
+         "steps_with_svd_shift_on_numerically_zero_state": SEQ.get("zero_state_steps", 0),
+         "of_which_over_the_cap": SEQ.get("zero_state_over_cap", 0), "detail": SEQ["detail"]}]
+
+
 if __name__ == "__main__":
     ib.main("C08", gen, run, driver="Rank",
             rule="whole simulations (analog order 1/2, TDVP/BUG, digital strong/weak; noise on/off; caps 1..7, min bond 1..3, both "
                  "truncation modes; product and random initial states) with every bond-changing primitive recorded, plus forced "
                  "spectra through split_mps_tensor with non-power-of-d caps and dynamic=True; distinct = distinct primitive "
-                 "signatures (rule, spectrum length, kept rank, cap, flag) / simulation configurations",
+                 "signatures (rule, spectrum length, kept rank, cap, flag) / simulation configurations; "
+                 "op-sequence tie (Model.SweepBonds): single calls of local_dynamic_tdvp / two_site_tdvp / single_site_tdvp / bug "
+                 "(L = 1..6, analog and digital, caps biting at some bonds only), runs of 1..3 step_through calls (TDVP and BUG, "
+                 "one- and two-site noise, forced and natural jumps, scheduled jumps), every two-qubit gate step of digital_tjm on "
+                 "random circuits (nearest-neighbour and next-nearest gates, local noise) — kind, bond, physical dimension and "
+                 "resulting dimension of every op and the bond vector after the call vs the model's own op list",
             trusted_base=["numerical-rank hypothesis of the SVD centre shift (spec-tied on every call seen)"],
-            assumptions=["bond-changing primitives are exactly split_mps_tensor, two_site_svd, right_qr/np.linalg.qr (coverage-checked: every bond change between sampling points is explained by a recorded primitive output)"],
+            assumptions=["bond-changing primitives are exactly split_mps_tensor, two_site_svd, right_qr/np.linalg.qr (coverage-checked: every bond change between sampling points is explained by a recorded primitive output)",
+                         "op-sequence tie: the bond of a primitive is read off the first store of its output tensor into state.tensors (list subclass logging __setitem__); the bond vector replayed by the model must equal the one observed after the call, so an unrecorded bond change shows up as a mismatch",
+                         "steps in which an SVD centre shift meets a numerically zero state (total weight < 1e-12) are outside the hypotheses of the invariant: skipped and counted in the spec tie"],
             spec=spec)
